@@ -40,7 +40,12 @@ Check (C08_machine_rows : forall s q, fine s [] q ->
   forall fuel, work s [] q < fuel -> iterate s q fuel (mkm [] 0) [] = Some (rows s [] q)).
 Check (C08_machine_sem : forall s q, clean s [] q -> run_machine s q = Some (sem s [] q)).
 Check (C08_machine_sem_dec : forall s q, cleanb s [] q = true -> run_machine s q = Some (sem s [] q)).
+Check (C08_plain_level : forall s e rt cs lim, plain_l rt cs = true ->
+  level_impl s e rt cs lim = level s e rt cs lim).
+Check (C08_machine_sem_plain : forall s q, guard s [] q = true -> run_machine s q = Some (sem s [] q)).
 Print Assumptions C08_limit_is_slice.
+Print Assumptions C08_plain_level.
+Print Assumptions C08_machine_sem_plain.
 Print Assumptions C08_machine_rows.
 Print Assumptions C08_machine_sem.
 Print Assumptions C08_machine_sem_dec.
